@@ -44,7 +44,12 @@ func c16Program(origin int64, hasOrg bool, filler string, branches []string, res
 	if resbDollar {
 		sb.WriteString(fmt.Sprintf("\tRESB 0x%x-$\n", origin+0x90))
 	}
-	sb.WriteString("fwd:\n" + sentinelLine(6) + "\tJMP start\n\tJNZ fwd\n\tCALL start\n" + sentinelLine(7) + "\tDW fwd\n\tDD fwd\n")
+	noLabelBranch := len(branches) == 1 && branches[0] == "JMP $"
+	if noLabelBranch { // a program without any label-target branch: only $-derived targets
+		sb.WriteString("fwd:\nhere EQU $\n" + sentinelLine(6) + "\tJMP $\n\tJNZ here\n\tCALL here\n" + sentinelLine(7) + "\tDW fwd\n\tDD fwd\n")
+	} else {
+		sb.WriteString("fwd:\n" + sentinelLine(6) + "\tJMP start\n\tJNZ fwd\n\tCALL start\n" + sentinelLine(7) + "\tDW fwd\n\tDD fwd\n")
+	}
 	fields = append(fields, absField{"DW fwd (after)", 7, 0, 2}, absField{"DD fwd (after)", 7, 2, 4})
 	return sb.String(), fields
 }
@@ -56,7 +61,7 @@ func c16Scenario(tier string) *core.Scenario {
 	}
 	orgs := []org{{0, false}, {0, true}, {0x100, true}, {0x7c00, true}, {0xc200, true}, {0x8000, true}, {0xfff0, true}}
 	fillers := []string{"", "MOV AX,BX", "DB 1,2,3", "RESB 5", "ALIGNB 16", "MOV WORD [0x0ff4],320"}
-	branchSets := [][]string{{}, {"JMP fwd"}, {"JE fwd", "JMP start"}, {"CALL fwd", "JNBE start", "JMP fwd"}}
+	branchSets := [][]string{{"JMP $"}, {}, {"JMP fwd"}, {"JE fwd", "JMP start"}, {"CALL fwd", "JNBE start", "JMP fwd"}}
 	if false {
 		fillers = fillers[:4]
 		branchSets = branchSets[1:3]
